@@ -332,6 +332,8 @@ struct World {
 }
 
 thread_local! {
+    /// this scenario reads / writes through the vectored entry points of AsyncRead / AsyncWrite
+    static VECTORED: std::cell::Cell<bool> = const { std::cell::Cell::new(false) };
     static W: RefCell<Option<Rc<World>>> = const { RefCell::new(None) };
 }
 
@@ -509,7 +511,13 @@ impl TaskFut {
             match op {
                 Op::Read(k) => {
                     let mut buf = vec![0u8; k * n];
-                    let r = catch_unwind(AssertUnwindSafe(|| Pin::new(&mut *ad).poll_read(&mut cx2, &mut buf)));
+                    let r = catch_unwind(AssertUnwindSafe(|| {
+                        if VECTORED.with(|v| v.get()) {
+                            Pin::new(&mut *ad).poll_read_vectored(&mut cx2, &mut [std::io::IoSliceMut::new(&mut buf)])
+                        } else {
+                            Pin::new(&mut *ad).poll_read(&mut cx2, &mut buf)
+                        }
+                    }));
                     match r {
                         Ok(Poll::Ready(Ok(got))) => {
                             let (syms, aligned) = w.data.borrow_mut().commit_read(qr, &buf[..got]);
@@ -540,7 +548,13 @@ impl TaskFut {
                 }
                 Op::Write(k) => {
                     let offered = w.data.borrow().offer(qw, k);
-                    let r = catch_unwind(AssertUnwindSafe(|| Pin::new(&mut *ad).poll_write(&mut cx2, &offered)));
+                    let r = catch_unwind(AssertUnwindSafe(|| {
+                        if VECTORED.with(|v| v.get()) {
+                            Pin::new(&mut *ad).poll_write_vectored(&mut cx2, &[std::io::IoSlice::new(&offered)])
+                        } else {
+                            Pin::new(&mut *ad).poll_write(&mut cx2, &offered)
+                        }
+                    }));
                     match r {
                         Ok(Poll::Ready(Ok(put))) => {
                             let (syms, aligned) = w.data.borrow_mut().commit_write(qw, &offered, put);
@@ -687,6 +701,7 @@ fn run_scenario(scn: &Value, scale: Scale, tmpdir: &str) {
     // watchdog: a scenario takes milliseconds; a blocked loop thread is killed by SIGALRM (the engine reports the scenario)
     unsafe { libc::alarm(30) };
     let join = scn.get("join").and_then(|j| j.as_i64()).unwrap_or(0) == 1;
+    VECTORED.with(|v| v.set(scn.get("vectored").and_then(|j| j.as_i64()).unwrap_or(0) == 1));
     let nb0: Vec<bool> = (0..3)
         .map(|i| scn["nb0"].get(i).and_then(|x| x.as_i64()).unwrap_or(0) == 1)
         .collect();
